@@ -256,12 +256,44 @@ def rule_r4(ctx) -> RuleResult:
                 return out
         return None
 
+    roots = {"path", "modname"}
+
+    def helper_ops(h: ast.FunctionDef) -> list:
+        """operations a module-level helper applies to its single parameter before returning it"""
+        params = [a_.arg for a_ in h.args.args]
+        if len(params) != 1:
+            raise AnalysisError("lua_loader: sanitising helper {} takes {} parameters (inconclusive)".format(h.name, len(params)))
+        saved = set(roots)
+        roots.add(params[0])
+        out = []
+        try:
+            for st_ in h.body:
+                if isinstance(st_, ast.Expr) and isinstance(st_.value, ast.Constant):
+                    continue  # docstring
+                if isinstance(st_, ast.Assign) and len(st_.targets) == 1 and isinstance(st_.targets[0], ast.Name):
+                    out.extend(steps_of(st_.value))
+                    roots.add(st_.targets[0].id)
+                elif isinstance(st_, ast.AugAssign) and isinstance(st_.target, ast.Name) and isinstance(st_.value, ast.Constant):
+                    out.append(("suffix", st_.value.value, None))
+                elif isinstance(st_, ast.Return) and st_.value is not None:
+                    out.extend(steps_of(st_.value))
+                    return out
+                else:
+                    raise AnalysisError("lua_loader: sanitising helper {} has a statement outside the supported fragment (inconclusive)".format(h.name))
+        finally:
+            roots.clear()
+            roots.update(saved)
+        raise AnalysisError("lua_loader: sanitising helper {} does not return (inconclusive)".format(h.name))
+
     def steps_of(e: ast.AST) -> list:
         """flatten an expression over `path` into the ordered list of string operations it applies"""
         if isinstance(e, ast.Name):
-            if e.id in ("path", "modname"):
+            if e.id in roots:
                 return []
             raise AnalysisError("lua_loader: path built from `{}` (inconclusive)".format(e.id))
+        if isinstance(e, ast.Call) and isinstance(e.func, ast.Name) and len(e.args) == 1 and not e.keywords \
+                and ctx.index.has_func("luaexec." + e.func.id):
+            return steps_of(e.args[0]) + helper_ops(ctx.index.func("luaexec." + e.func.id))
         if isinstance(e, ast.Call) and unparse(e.func) == "re.sub" and len(e.args) == 3 and isinstance(e.args[0], ast.Constant) \
                 and isinstance(e.args[1], ast.Constant):
             return steps_of(e.args[2]) + [("sub", e.args[0].value, e.args[1].value)]
